@@ -1001,6 +1001,30 @@ fn syndrome_faults(ctx: &Ctx, rng: &mut Rng, s: &SizeInfo, b: usize, faults: &mu
         for j in idxs {
             syn[j] = if zero { 0 } else { rng.byte() };
         }
+    } else if rng.chance(1, 4) && v >= 1 && v + 2 <= k {
+        // a STRUCTURED perturbation of the tail: from some index on, the syndromes are changed by the coefficients of
+        // (connection polynomial, or its reciprocal) x (a random polynomial) - every row of the recurrence is violated,
+        // but the violations themselves vanish at the locators (or their inverses). A cross-check that evaluates
+        // something AT the located positions instead of testing the rows one by one does not see them.
+        let cands = [t + v, (t + v).saturating_sub(1), 2 * v, (2 * v).saturating_sub(1), t, t.saturating_sub(1)];
+        let a = if rng.chance(3, 4) { *rng.pick(&cands) } else { rng.below(k) };
+        let a = a.min(k - 1);
+        let room = k - a;
+        if room >= v + 1 {
+            let m: Vec<u8> = if rng.bit() { poly.clone() } else { poly.iter().rev().copied().collect() };
+            let rdeg = room - (v + 1);
+            let rlen = if rdeg == 0 { 1 } else { rng.range(1, rdeg + 1) };
+            let r: Vec<u8> = (0..rlen).map(|i| if i + 1 == rlen { rng.nonzero_byte() } else { rng.byte() }).collect();
+            let d = gf.poly_mul(&m, &r);
+            for (i, c) in d.iter().enumerate() {
+                if a + i < k {
+                    syn[a + i] ^= *c;
+                }
+            }
+        } else {
+            let j = rng.below(k);
+            syn[j] ^= rng.nonzero_byte();
+        }
     } else {
     let n_disc = if rng.chance(3, 4) { 1 } else { 2 };
     for _ in 0..n_disc {
@@ -1475,6 +1499,55 @@ fn thinned_phantom_faults(ctx: &Ctx, rng: &mut Rng, s: &SizeInfo, faults: &mut V
         return true;
     }
     false
+}
+
+/// Near-identical blocks and a difference that moves. Every block of the sent symbol carries the same data (the
+/// same polynomial, aligned at the block end; a leading zero in the longer blocks of 144x144) except block a, which
+/// differs from the others in m <= t data codewords; the damage flips exactly those codewords in block a AND in
+/// another block b, so that the RECEIVED word is again "all blocks alike but one" - with the odd one now b. Within
+/// the radius (m errors in each of two blocks). The received word is what another valid layout or another valid
+/// message would look like; a decoder that recognises such a word "as is" (a foreign interleaving, a cached block)
+/// leaves it unrepaired.
+fn moved_difference_trace(rng: &mut Rng, s: &SizeInfo) -> Option<Trace> {
+    if s.blocks < 2 {
+        return None;
+    }
+    let t = s.t();
+    let nd_min = s.block_data_len(s.blocks - 1);
+    let base: Vec<u8> = match rng.below(4) {
+        0 => vec![rng.byte(); nd_min],
+        _ => rng.bytes(nd_min),
+    };
+    let mut data = vec![0u8; s.n_data];
+    for b in 0..s.blocks {
+        let nd = s.block_data_len(b);
+        let lead = nd - nd_min; // 0 or 1
+        for i in 0..nd_min {
+            data[b + (i + lead) * s.blocks] = base[i];
+        }
+    }
+    let a = rng.below(s.blocks);
+    let b = match rng.below(5) {
+        0 => (a + s.blocks - 1) % s.blocks,
+        1 => (a + 1) % s.blocks,
+        2 => (a + 2) % s.blocks,
+        3 => (a + s.blocks - 2 % s.blocks) % s.blocks,
+        _ => rng.below(s.blocks),
+    };
+    if a == b {
+        return None;
+    }
+    let m = if rng.chance(1, 3) { 1 } else { rng.range(1, t.min(nd_min)) };
+    let mut faults = Vec::new();
+    for i in rng.sample_distinct(nd_min, m) {
+        let mask = rng.nonzero_byte();
+        let pa = a + (i + s.block_data_len(a) - nd_min) * s.blocks;
+        let pb = b + (i + s.block_data_len(b) - nd_min) * s.blocks;
+        data[pa] ^= mask;
+        faults.push(Fault::new("cw_twin", Op::CwXor { pos: pa as u32, mask }));
+        faults.push(Fault::new("cw_twin", Op::CwXor { pos: pb as u32, mask }));
+    }
+    Some(Trace { prop: "C03".into(), producer: Producer::Raw { size: s.idx, data }, faults })
 }
 
 /// Between two codewords. B is the codeword that differs from the sent codeword A in a few data codewords of one
@@ -2055,7 +2128,13 @@ fn geometry_fault(rng: &mut Rng, s: &SizeInfo, faults: &mut Vec<Fault>) {
                 Fault::new("geo_width_skew", Op::GeoWidth { w: nw as u32 })
             }
         }
-        8 if rng.chance(1, 2) => Fault::new("geo_frame", Op::GeoFrame { n: rng.range(1, 3) as u32, fill: rng.below(3) as u32 }),
+        8 if rng.chance(1, 3) => Fault::new("geo_frame", Op::GeoFrame { n: rng.range(1, 3) as u32, fill: rng.below(3) as u32 }),
+        8 if rng.chance(1, 2) => {
+            let side = rng.below(4) as u32;
+            let along = if side < 2 { w } else { h };
+            let n = if rng.chance(1, 2) { rng.range(1, 8) } else { (8 - along % 8) % 8 + 8 * rng.below(2) };
+            Fault::new("geo_frame", Op::GeoMargin { side, n: n.max(1) as u32, fill: rng.below(3) as u32 })
+        }
         8 => Fault::new("geo_empty", Op::GeoEmpty),
         9 | 10 => Fault::new("geo_rot", Op::GeoRot { q: rng.range(1, 3) as u8 }),
         11 => Fault::new("geo_mirror", Op::GeoMirror),
@@ -2662,6 +2741,11 @@ fn gen_c03(ctx: &Ctx, rng: &mut Rng, i: u64) -> Trace {
     }
     if rng.chance(1, 25) {
         if let Some(t) = uniform_region_trace(ctx, rng, s) {
+            return t;
+        }
+    }
+    if s.blocks > 1 && rng.chance(1, 12) {
+        if let Some(t) = moved_difference_trace(rng, s) {
             return t;
         }
     }
